@@ -626,6 +626,9 @@ func (t *Collection) Len() (l int64, err error) {
 	if err != nil {
 		return
 	}
+	if si == nil {
+		return 0, nil // Empty collection.
+	}
 	err = t.VisitItemsAscendEx(si.Key, false, visitor)
 	return
 }
